@@ -16,6 +16,8 @@ CLAUSES = {
     "B.scheme.sum_one": "coefficients sum to 1",
     "B.update.effect": "update on a non-active vector changes nothing and returns None; on an active one moves it to old and adds exactly the admissible forward neighbours; returns their dimensions",
     "B.init.closed_form": "non-adaptive closed-form scheme == freshly initialised adaptive scheme as a multiset of (levelvector, coefficient)",
+    "B.init.fresh": "init_adaptive_combi_scheme on a USED object (after updates, after init_full_grid, same or different levels) establishes exactly the state of a fresh object",
+    "B.scheme.ownership": "component grids returned by getCombiScheme are fresh objects: mutating a returned scheme changes neither a later getCombiScheme of the same object nor of another CombiScheme",
     "B.api.queries": "is_refinable / in_index_set / is_old_index / has_forward_neighbour / get_index_set / get_active_indices agree with the sets",
 }
 
@@ -75,6 +77,40 @@ def do_update(ctx, cs, d, lmin, v):
     return True
 
 
+def state_of(cs):
+    return (set(cs.old_index_set), set(cs.active_index_set), cs.lmax_adaptive, cs.lmin, cs.lmax, cs.initialized_adaptive)
+
+
+def check_reinit(ctx, cs, d, lmin, lmax):
+    """history clauses: re-initialisation of a used object, ownership of returned schemes"""
+    from sparseSpACE.combiScheme import CombiScheme
+    site = "sparseSpACE.combiScheme:CombiScheme.init_adaptive_combi_scheme"
+    fresh = CombiScheme(d)
+    fresh.init_adaptive_combi_scheme(lmax, lmin)
+    cs.init_adaptive_combi_scheme(lmax, lmin)                      # same levels on the used object
+    ctx.check("B.init.fresh", state_of(cs) == state_of(fresh), site, "reinit-same-levels", "re-initialised %s vs fresh %s" % (state_of(cs), state_of(fresh)))
+    cs.init_full_grid(lmax, lmin)
+    cs.init_adaptive_combi_scheme(lmax, lmin)                      # after the plotting-only full grid
+    ctx.check("B.init.fresh", state_of(cs) == state_of(fresh), site, "reinit-after-full-grid", "re-initialised %s vs fresh %s" % (state_of(cs), state_of(fresh)))
+    # ownership of the returned component grids (adaptive and closed-form branch)
+    site2 = "sparseSpACE.combiScheme:CombiScheme.getCombiScheme"
+    for make in (lambda: cs, lambda: CombiScheme(d)):
+        obj = make()
+        with quiet():
+            first = obj.getCombiScheme(lmin, lmax, do_print=False)
+        want = scheme_pairs(first)
+        for g in first:
+            g.coefficient = 12345
+        with quiet():
+            again = scheme_pairs(obj.getCombiScheme(lmin, lmax, do_print=False))
+            other = CombiScheme(d)
+            if obj.initialized_adaptive:
+                other.init_adaptive_combi_scheme(lmax, lmin)
+            other_pairs = scheme_pairs(other.getCombiScheme(lmin, lmax, do_print=False))
+        ctx.check("B.scheme.ownership", again == want and other_pairs == want, site2, "adaptive" if obj.initialized_adaptive else "closed-form",
+                  "after mutating a returned scheme: same object %s, other object %s, expected %s" % (again[:3], other_pairs[:3], want[:3]))
+
+
 def run_sequence(ctx, d, lmin, lmax, seq, check_every=True):
     from sparseSpACE.combiScheme import CombiScheme
     cs = CombiScheme(d)
@@ -86,6 +122,8 @@ def run_sequence(ctx, d, lmin, lmax, seq, check_every=True):
         nontrivial |= do_update(ctx, cs, d, lmin, tuple(v))
         if check_every or n == len(seq) - 1:
             check_state(ctx, cs, d, lmin, min(hi, lmax + 3), site)
+    if nontrivial:
+        check_reinit(ctx, cs, d, lmin, lmax)
     return nontrivial
 
 
